@@ -46,7 +46,7 @@ PROPS["C16"] = {
                     "G1/G2 point decoders (blst)"],
     "trusted_base": [],
     "assumptions": [],
-    "claim": "Proof (Kani, bounded only in buffer length) that the pure-Rust byte decoders are total and canonical: every Serialize::deserialize instance returns Ok/Err for every buffer, advances by exactly the encoded size and never allocates from an unchecked length; pack/unpack are exact inverses on their documented domain; field decoders accept exactly the canonical encodings (see C10); every public checked point decoder of G1/G2 routes through the on-curve / subgroup checks (see C11); the architecture-descriptor decoder only returns descriptors on which ZkStdLib::configure does not panic. Added: VerifyingKey::read_from_cs establishes the precondition of VerifyingKey::from_parts -- one fixed commitment per fixed column, the invariant the verifier indexes by (PolyVC imperative-decoder subset; callee contracts assumed); the length arithmetic of the IR operation IntoBytes and the zero-modulus guard of ModExp; the arity table covers every index / output count the two IR parsers use; the three ZKIR program decoders (read_relation / read / from_instructions) return Ok exactly when decoding succeeds AND every instruction passes check_arity, from_instructions is the only constructor of ZkirRelation, and Arity::check is the documented predicate (full usize domain). The body of VerifyingKey::read_from_cs (e.g. a fixed-commitment count that disagrees with the circuit), ParamsKZG::read_custom, bincode / serde_json themselves and whether check_arity's table is what the IR parsers need are NOT decided.",
+    "claim": "Proof (Kani, bounded only in buffer length) that the pure-Rust byte decoders are total and canonical: every Serialize::deserialize instance returns Ok/Err for every buffer, advances by exactly the encoded size and never allocates from an unchecked length; pack/unpack are exact inverses on their documented domain; field decoders accept exactly the canonical encodings (see C10); every public checked point decoder of G1/G2 routes through the on-curve / subgroup checks (see C11); the architecture-descriptor decoder only returns descriptors on which ZkStdLib::configure does not panic. Added: VerifyingKey::read_from_cs establishes the precondition of VerifyingKey::from_parts -- one fixed commitment per fixed column, the invariant the verifier indexes by (PolyVC imperative-decoder subset; callee contracts assumed); the length arithmetic of the IR operation IntoBytes and the zero-modulus guard of ModExp; the arity table covers every index / output count the two IR parsers use; the three ZKIR program decoders (read_relation / read / from_instructions) return Ok exactly when decoding succeeds AND every instruction passes check_arity, from_instructions is the only constructor of ZkirRelation, and Arity::check is the documented predicate (full usize domain). The verifier itself, proof decoding, ParamsKZG::read_custom (prover-side), bincode / serde_json themselves and IR compile panics that need whole-program reasoning are NOT decided.",
     "level_note": "Kani/CBMC; buffer items are bounded (length <= 24 bytes, content and length symbolic) and reported under `bounded`, never counted as proved; pack/unpack and the field decoders are full-domain. format! on error paths is stubbed.",
     "technique": "Kani harness-form contracts on the real decoders (contract-based deductive verification; bounded stand-in for buffer length)",
     "design_ref": "DESIGN.md section 5, C16",
@@ -107,12 +107,25 @@ PROPS["C05"] = {
 }
 
 # claimed in DESIGN.md, machinery not built yet in this revision
+PROPS["C01"] = {
+    "category": "model_checking",   # bounded Kani/CBMC runs only: nothing of C01 is proved
+    "units": {"kani": ["c01_instance_schedule"]},
+    "scope": "one link of the Fiat-Shamir schedule only: the order and content of what prover (compute_instances) and verifier (parse_trace) absorb into the transcript for the public inputs (committed and plain instance columns, several proofs)",
+    "not_decided": ["everything else of PLONK completeness: the rest of the Fiat-Shamir schedule (advice phases, challenges, lookups, permutation, trash, vanishing, evaluations, multi-open)",
+                    "quotient numerator vs. the verifier's identity evaluation, quotient splitting / blinding, polynomial commitment opening",
+                    "keygen / prover / verifier for any concrete circuit (Kani cannot build a ProvingKey symbolically; the code is generic over field, curve and commitment-scheme traits)"],
+    "trusted_base": [],
+    "assumptions": [],
+    "claim": "Bounded check of ONE link only (thin by admission): for 2 proofs x 2 instance columns with every committed/plain split and all values, the body of the prover's compute_instances and the verifier's instance-absorption loops put the same sequence of commitments, length prefixes and values into a recording stand-in transcript. This is the configuration (>= 2 proofs with a committed instance column) in which, before the repair, the tree rejected its own honest proofs. PLONK completeness as a whole is NOT decided: it is a composition theorem over generic / iterator / rayon / FFI code with no per-function contract within reach.",
+    "level_note": "Kani/CBMC on a body slice (prover) and a capture slice (verifier) with stand-in transcript / polynomial / commitment types; bounded stand-in, reported under `bounded`, never counted as proved. Witness: real prover and verifier on two proofs with a committed instance column.",
+    "technique": "Kani harness on mechanically extracted slices against a recording transcript (contract: equal absorption sequences); bounded",
+    "design_ref": "DESIGN.md section 9.4 (fix 15) and 9.2",
+}
 PENDING = {}
 for _p in ():
     PENDING[_p] = "planned in DESIGN.md section 5 but the check is not built yet in this revision; not claimed until it is"
 
 NOT_APPLICABLE = {
-    "C01": "PLONK completeness is a composition theorem over ~5 kLoC of generic/iterator/rayon/FFI code; the one contract-shaped piece (prover and verifier replay the same Fiat-Shamir trace) lives in nested iterator closures Verus rejects, and Kani cannot build a ProvingKey symbolically.",
     "C02": "verifier soundness is a cryptographic reduction plus agreement of two interpreters of a constraint system; there is no per-function contract whose conjunction is the property.",
     "C03": "statement binding rests on Fiat-Shamir and the pairing check (blst); the contract-shaped pieces (canonical scalar decoding) are decided under C10/C16.",
     "C04": "the property is about the constraint system emitted through the halo2 Region/Layouter API by trait-generic closures; no contract language for emitted constraints is within either verifier's subset, and rewriting the chips would be a model.",
